@@ -201,14 +201,17 @@ class C13(Sim):
                     ops.append({"op": "process", "e": e})
             else:
                 ops.append({"op": "process", "e": e})
-        yield {"arm": arm, "config": sp, "ops": ops}
+        tr = {"arm": arm, "config": sp, "ops": ops}
+        if rng.random() < 0.03:
+            tr["debugging"] = True
+        yield tr
 
     def _inputs(self, rng, sp, e, vector_ok) -> dict:
         k = rng.choice([1, 1, 1, 2, 4]) if vector_ok else 1
         if sp.get("flags", {}).get("identity_chain") and k == 1 and rng.random() < 0.6:
             return {"op": "inputs", "e": e, "rows": [S.draw_row(rng, sp, 0.05)], "setter": "np0d"}
         return {"op": "inputs", "e": e, "rows": [S.draw_row(rng, sp, rng.choice([0.05, 0.2, 0.4])) for _ in range(k)],
-                "setter": rng.choice(["vars", "vars", "matrix", "np0d", "npfloat", "pyint"])}
+                "setter": rng.choice(["vars", "vars", "matrix", "np0d", "npfloat", "pyint", "inplace", "inplace"])}
 
     def _crash_cases(self, rng, sp, vector_ok, tier) -> Iterator[dict]:
         pre = [self._inputs(rng, sp, 0, vector_ok), {"op": "process", "e": 0}]
@@ -255,6 +258,9 @@ class C13(Sim):
             if log is not None:
                 log.append(line)
 
+        if trace.get("debugging"):
+            fl.settings.debugging = True
+            st.hit("probes.library_debug_mode")
         try:
             e0, s0 = S.build(sp), S.build(sp)
         except Exception as ex:
@@ -288,6 +294,9 @@ class C13(Sim):
             p = EO.restart_problem(L.engine)
             if p:
                 return viol("restart_left_state_behind", i, problem=p, after=why)
+            for b_ in L.spec_now["blocks"]:
+                for r_ in b_["rules"]:
+                    r_.pop("unloaded", None)  # restart reloads every rule
             L.spec_restart = copy.deepcopy(L.spec_now)
             L.log = []
             L.shadow = S.build(L.spec_now)
@@ -321,6 +330,8 @@ class C13(Sim):
                         EO.apply_edit_spec(L.spec_now, op["edit"])
                         if op["edit"]["t"] in ("discrete_cell", "linear_coeff", "function_var"):
                             st.hit("probes.inplace_container_edit")
+                        if op["edit"]["t"] == "unload_rule":
+                            st.hit("probes.rule_unloaded_by_the_user")
                         if L.depth > 0:
                             edited_since[idx] = i
                     else:
